@@ -25,13 +25,75 @@ func callString(e ast.Expr) string {
 	return "?"
 }
 
-func goTracking(repo, rel string) (map[string][]string, error) {
+// chainName: the method names of a call chain without variables: f.logic.AfterAnnounce() -> AfterAnnounce,
+// stopGroup.Stop().Wait() -> Stop.Wait, close(x) -> close
+func chainName(e ast.Expr) string {
+	switch x := e.(type) {
+	case *ast.CallExpr:
+		return chainName(x.Fun)
+	case *ast.SelectorExpr:
+		if _, ok := x.X.(*ast.CallExpr); ok {
+			return chainName(x.X) + "." + x.Sel.Name
+		}
+		return x.Sel.Name
+	case *ast.Ident:
+		return x.Name
+	case *ast.ParenExpr:
+		return chainName(x.X)
+	}
+	return "?"
+}
+
+// what a goroutine (or a local function) does first: the first call in its body that is not bookkeeping,
+// local functions and methods resolved (so renaming or extracting a helper does not change it)
+func firstAction(body *ast.BlockStmt, local map[string]*ast.FuncDecl, depth int) string {
+	out := ""
+	ast.Inspect(body, func(n ast.Node) bool {
+		if out != "" {
+			return false
+		}
+		if c, ok := n.(*ast.CallExpr); ok {
+			cs := callString(c)
+			if strings.HasSuffix(cs, ".wg.Done()") || strings.HasPrefix(cs, "log.") || cs == "recover()" {
+				return true
+			}
+			out = actionOf(c, local, depth)
+			return false
+		}
+		return true
+	})
+	if out == "" {
+		out = "nothing"
+	}
+	return out
+}
+
+func actionOf(c *ast.CallExpr, local map[string]*ast.FuncDecl, depth int) string {
+	if fl, ok := c.Fun.(*ast.FuncLit); ok {
+		return firstAction(fl.Body, local, depth)
+	}
+	name := chainName(c)
+	if fd, ok := local[name]; ok && depth < 4 && !strings.Contains(name, ".") {
+		return firstAction(fd.Body, local, depth+1)
+	}
+	return name
+}
+
+// goTracking: for every `go` statement of the file, whether it is tracked by the WaitGroup (wg.Add before,
+// deferred wg.Done first) and what it does; sorted, without function or variable names
+func goTracking(repo, rel string) ([]string, error) {
 	fset := token.NewFileSet()
 	f, err := parser.ParseFile(fset, filepath.Join(repo, rel), nil, 0)
 	if err != nil {
 		return nil, err
 	}
-	out := map[string][]string{}
+	local := map[string]*ast.FuncDecl{}
+	for _, d := range f.Decls {
+		if fd, ok := d.(*ast.FuncDecl); ok && fd.Body != nil {
+			local[fd.Name.Name] = fd
+		}
+	}
+	out := []string{}
 	for _, d := range f.Decls {
 		fd, ok := d.(*ast.FuncDecl)
 		if !ok || fd.Body == nil {
@@ -51,24 +113,8 @@ func goTracking(repo, rel string) (map[string][]string, error) {
 							}
 						}
 					}
-					what := "func"
-					if fl, ok := g.Call.Fun.(*ast.FuncLit); ok {
-						// name the first call inside for readability
-						ast.Inspect(fl.Body, func(n ast.Node) bool {
-							if c, ok := n.(*ast.CallExpr); ok && what == "func" {
-								cs := callString(c)
-								if !strings.HasSuffix(cs, ".wg.Done()") {
-									what = cs
-								}
-							}
-							return true
-						})
-					} else {
-						what = callString(g.Call)
-					}
-					out[fd.Name.Name] = append(out[fd.Name.Name], tracked+": go "+what)
+					out = append(out, tracked+": "+actionOf(g.Call, local, 0))
 				}
-				// recurse into nested blocks
 				ast.Inspect(s, func(n ast.Node) bool {
 					switch b := n.(type) {
 					case *ast.BlockStmt:
@@ -92,6 +138,7 @@ func goTracking(repo, rel string) (map[string][]string, error) {
 		}
 		visit(fd.Body.List)
 	}
+	sort.Strings(out)
 	return out, nil
 }
 
@@ -136,36 +183,28 @@ func lifecycleFacts(repo string) (interface{}, error) {
 	if err != nil {
 		return nil, err
 	}
-	var order []string
+	// the order in which Run.Stop first touches the frontends' stop group, the logic and the store, and whether
+	// the keepPeerStore flag is consulted before the store is touched (local helpers it calls are followed)
+	order := []string{}
+	seen := map[string]bool{}
 	for _, d := range f2.Decls {
-		if fd, ok := d.(*ast.FuncDecl); ok && fd.Name.Name == "Stop" && fd.Recv != nil {
-			var walk func(n ast.Node, guard string)
-			walk = func(n ast.Node, guard string) {
-				ast.Inspect(n, func(m ast.Node) bool {
-					if ifs, ok := m.(*ast.IfStmt); ok && m != n {
-						cond := ""
-						if u, ok := ifs.Cond.(*ast.UnaryExpr); ok && u.Op == token.NOT {
-							cond = "!" + callString(u.X)
-						}
-						if ifs.Init != nil {
-							walk(ifs.Init, guard)
-						}
-						g := guard
-						if cond != "" {
-							g = guard + "[if " + cond + "]"
-						}
-						walk(ifs.Body, g)
-						return false
+		if fd, ok := d.(*ast.FuncDecl); ok && fd.Name.Name == "Stop" && fd.Recv != nil && len(fd.Recv.List) == 1 && len(fd.Recv.List[0].Names) == 1 {
+			recv := fd.Recv.List[0].Names[0].Name
+			ast.Inspect(fd.Body, func(m ast.Node) bool {
+				switch x := m.(type) {
+				case *ast.SelectorExpr:
+					if id, ok := x.X.(*ast.Ident); ok && id.Name == recv && !seen[x.Sel.Name] {
+						seen[x.Sel.Name] = true
+						order = append(order, x.Sel.Name)
 					}
-					if c, ok := m.(*ast.CallExpr); ok {
-						if s := callString(c); strings.HasSuffix(s, ".Stop()") {
-							order = append(order, guard+s)
-						}
+				case *ast.Ident:
+					if x.Name == "keepPeerStore" && !seen["?keepPeerStore"] {
+						seen["?keepPeerStore"] = true
+						order = append(order, "?keepPeerStore")
 					}
-					return true
-				})
-			}
-			walk(fd.Body, "")
+				}
+				return true
+			})
 		}
 	}
 	res["run_stop_order"] = order
